@@ -23,7 +23,7 @@ M = [
                 .try_into()
                 .expect("start is to large"),''', expect='C02'),
  dict(id='P18-value-suffix-always-true', file='grammar/value.rs', old="        _ => return false,\n    };\n\n    true", new="        _ => CompletedMarker::Fail,\n    };\n\n    true", expect='C02'),
- dict(id='P23-source-file-no-finish', file='grammar.rs', old='        p.error("unexpected input at top level");\n    }\n    p.finish_node();', new='        p.error("unexpected input at top level");\n    }', expect='C01'),
+ dict(id='P23-source-file-no-finish', file='grammar.rs', old='        p.error("unexpected input at top level");\n    }\n    p.finish_node();', new='        p.error("unexpected input at top level");\n    }', expect='C02'),
  dict(id='P26-multiclass-stmt-error-no-eat', file='grammar/statement.rs', old="_ => p.error_and_eat(\"expected 'assert', 'def', 'defm', 'dump', 'foreach', 'let', or 'if' in multiclass body\"),", new="_ => p.error(\"expected 'assert', 'def', 'defm', 'dump', 'foreach', 'let', or 'if' in multiclass body\"),", expect='C02'),
  dict(id='P27-pp-cursor-off', file='preprocessor.rs', old="    fn cursor(&self) -> usize {\n        self.token_stream.cursor()\n    }", new="    fn cursor(&self) -> usize {\n        self.token_stream.cursor().saturating_sub(1)\n    }", expect='C01'),
  dict(id='P28-eat-if-no-eat', file='parser.rs', old="        if self.at(kind) {\n            self.eat();\n            true", new="        if self.at(kind) {\n            true", expect='C02'),
